@@ -14,6 +14,8 @@ declaration's identifier.
   types    EXTENDS chains of length <= 3, component at each level, type/class objects,
            scalar / array-element / nested-component access, inside and outside the module
   include  a declaration brought in by INCLUDE at module or procedure level
+  constructs  ASSOCIATE names and member access through them, for nine selector shapes (variable, component, array
+           element, nested / call subscripts, two subscripted levels, whole object), one or two bindings
   types_files  a three-level EXTENDS chain over three files and a user file, indexed in every
            scripted start-up enumeration order of the four files
 """
@@ -438,8 +440,92 @@ def build_types_files(p):
     return ws
 
 
+# ================================================================== constructs
+# ASSOCIATE names: the associate name itself, and member access through it, for selectors of growing shape
+# (variable, component, array element, subscripts that contain calls / array elements themselves, two levels of
+# subscripted components).  Selector text is built from U tokens, so every name in it is a checked use site too.
+def _sel(kind):
+    mesh, cells, first, order, k = (U("mesh", "v::mesh"), U("cells", "mesh_t::cells"), U("first", "mesh_t::first"),
+                                    U("order", "v::order"), U("k", "v::k"))
+    inner = U("inner", "cell_t::inner")
+    return {
+        "var": ([U("onecell", "v::onecell")], "cell"),
+        "component": ([mesh, "%", first], "cell"),
+        "element": ([mesh, "%", cells, "(", k, ")"], "cell"),
+        "element_of_var": ([U("cellarr", "v::cellarr"), "(2)"], "cell"),
+        "nested_index": ([mesh, "%", cells, "(", order, "(", k, "))"], "cell"),
+        "call_index": ([mesh, "%", cells, "(max(", k, ", 1))"], "cell"),
+        "double_nested_index": ([mesh, "%", cells, "(", order, "(", U("order", "v::order"), "(", U("k", "v::k"), ")))"], "cell"),
+        "two_subscripts": ([mesh, "%", cells, "(", k, ")%", inner, "(2)"], "leaf"),
+        "whole": ([mesh], "mesh"),
+    }[kind]
+
+
+CONSTRUCT_SELECTORS = ["var", "component", "element", "element_of_var", "nested_index", "call_index", "double_nested_index",
+                       "two_subscripts", "whole"]
+
+
+def constructs_cases():
+    for sel in CONSTRUCT_SELECTORS:
+        for where in ("program", "module_procedure"):
+            for second in (False, True):
+                yield (sel, where, second)
+
+
+def build_constructs(p):
+    sel, where, second = p
+    ws = Workspace()
+    f = ws.file("gmod.f90")
+    f.add("module gmod")
+    f.add("  implicit none")
+    f.add("  type :: leaf_t")
+    f.add("    real :: ", D("lval", "leaf_t::lval"))
+    f.add("  end type leaf_t")
+    f.add("  type :: cell_t")
+    f.add("    real :: ", D("vol", "cell_t::vol"))
+    f.add("    type(leaf_t) :: ", D("inner", "cell_t::inner"), "(3)")
+    f.add("  end type cell_t")
+    f.add("  type :: mesh_t")
+    f.add("    type(cell_t) :: ", D("first", "mesh_t::first"))
+    f.add("    type(cell_t) :: ", D("cells", "mesh_t::cells"), "(10)")
+    f.add("  end type mesh_t")
+
+    def body(g, ind):
+        g.add(ind + "type(mesh_t) :: ", D("mesh", "v::mesh"))
+        g.add(ind + "type(cell_t) :: ", D("onecell", "v::onecell"))
+        g.add(ind + "type(cell_t) :: ", D("cellarr", "v::cellarr"), "(4)")
+        g.add(ind + "integer :: ", D("order", "v::order"), "(10)")
+        g.add(ind + "integer :: ", D("k", "v::k"))
+        g.add(ind + "real :: ", D("x", "v::x"))
+        toks, typ = _sel(sel)
+        extra = [", ", D("other", "a::other"), " => ", U("onecell", "v::onecell")] if second else []
+        g.add(ind + "associate (", D("c", "a::c"), " => ", *toks, *extra, ")")
+        member = {"cell": [U("vol", "cell_t::vol")], "leaf": [U("lval", "leaf_t::lval")],
+                  "mesh": [U("first", "mesh_t::first"), "%", U("vol", "cell_t::vol")]}[typ]
+        g.add(ind + "  ", U("x", "v::x"), " = ", U("c", "a::c"), "%", *member)
+        if second:
+            g.add(ind + "  ", U("x", "v::x"), " = ", U("other", "a::other"), "%", U("vol", "cell_t::vol"))
+        g.add(ind + "end associate")
+
+    if where == "module_procedure":
+        f.add("contains")
+        f.add("  subroutine guse()")
+        body(f, "    ")
+        f.add("  end subroutine guse")
+        f.add("end module gmod")
+    else:
+        f.add("end module gmod")
+        g = ws.file("guser.f90")
+        g.add("program guser")
+        g.add("  use gmod")
+        g.add("  implicit none")
+        body(g, "  ")
+        g.add("end program guser")
+    return ws
+
+
 BUILDERS = {"shadow": build_shadow, "usegraph": build_usegraph, "types": build_types, "include": build_include,
-            "types_files": build_types_files}
+            "types_files": build_types_files, "constructs": build_constructs}
 
 
 # ================================================================== execution
@@ -601,6 +687,8 @@ def _features(fam, p):
                 "defaults": ",".join(d for (_, d) in mods), "decls": ",".join(str(d) for (d, _) in mods)}
     if fam == "shadow":
         return {"shadow": ",".join(str(x) for x in p)}
+    if fam == "constructs":
+        return {"selector": p[0], "where": p[1], "two_bindings": p[2]}
     return {"params": repr(p)}
 
 
@@ -613,6 +701,8 @@ def jobs(quick):
         yield ("include", p)
     for p in types_files_cases():
         yield ("types_files", p)
+    for p in constructs_cases():
+        yield ("constructs", p)
     for p in usegraph_cases(2, reduced=0):
         yield ("usegraph", p)
     for p in usegraph_cases(3, reduced=(1 if quick else 2)):
